@@ -73,6 +73,15 @@ class _Canon(ast.NodeTransformer):
             return ast.copy_location(ast.If(test=e.test, body=[mk(e.body)], orelse=[mk(e.orelse)]), node)
         return node
 
+    def visit_Return(self, node):
+        self.generic_visit(node)
+        # `return A if c else B`  ->  if c: return A / else: return B
+        if isinstance(node.value, ast.IfExp):
+            e = node.value
+            mk = lambda x: ast.copy_location(ast.Return(value=x), node)
+            return ast.copy_location(ast.If(test=e.test, body=[mk(e.body)], orelse=[mk(e.orelse)]), node)
+        return node
+
     def visit_IfExp(self, node):
         self.generic_visit(node)
         if isinstance(node.test, ast.UnaryOp) and isinstance(node.test.op, ast.Not):
@@ -160,7 +169,13 @@ def _tailify(stmts, target):
                         return None
                     out.append(ast.copy_location(ast.If(test=st.test, body=b, orelse=o), st))
                     return out
-                return None
+                # returns somewhere inside, but neither arm always returns: the rest of the block follows both arms
+                b = _tailify(st.body + rest, target)
+                o = _tailify(copy.deepcopy(list(st.orelse) + rest), target)
+                if b is None or o is None:
+                    return None
+                out.append(ast.copy_location(ast.If(test=st.test, body=b, orelse=o), st))
+                return out
         if _has_return(st):
             return None
         out.append(st)
